@@ -300,3 +300,8 @@ func LiveGoroutines() int { return liveNative() }
 func StubFunc(name string, impl interface{}) {
 	panic("verifrt.StubFunc: not available natively")
 }
+
+// Valid reports whether b holds for every value of the symbolic inputs that
+// satisfies the path condition (symgo: decided by the solver, without
+// forking; natively: b itself).
+func Valid(b bool) bool { return b }
